@@ -34,19 +34,32 @@ Definition siphon_persistence_condition (G : bgraph) (max_size : option nat) (su
   | Some s => Some (persistence_verdict s supports)
   end.
 
-(** observable: the net observable of [run_net] followed by the verdicts for max_siphon_size None / k *)
+(** observable: the net observable of [run_net] followed by the verdicts for max_siphon_size None / k.  The body repeats
+    [run_net] with the two siphon enumerations let-bound, so that the (exponential) enumeration is evaluated once for the
+    siphon slots and the persistence slots: [siphon_persistence_condition G m sup] unfolds to exactly the match used here. *)
+Definition persistence_of (o : option (list (list nat))) (supports : list (list nat)) : option bool :=
+  match o with None => None | Some s => Some (persistence_verdict s supports) end.
+
 Definition run_net_p (n : nat) (rs : list rxn) (und : bool) (k : nat) (cands : list (list nat)) (order : list nat)
            (supports : list (list nat)) : tok :=
   let G0 := with_species_order order (bipartite_of n rs) in
   let G := if und then orient_undirected (undirected_view G0) else G0 in
-  match run_net n rs und k cands order with
-  | L l =>
-      if split_ok G
-      then L (l ++ [L [topt tbool (siphon_persistence_condition G None supports);
-                       topt tbool (siphon_persistence_condition G (Some k) supports)]])
-      else L l
-  | t => t
-  end.
+  if split_ok G then
+    let sns := species_nodes_sorted G in
+    let rn := g_reactions G in
+    let subs := all_subsets (length sns) in
+    let s_all := find_siphons G None in
+    let s_k := find_siphons G (Some k) in
+    L [ I 1%Z;
+        tlist tnat (species_labels G);
+        L [tbool (is_siphon_indices G sns rn []); tbool (is_trap_indices G sns rn [])];
+        tlist (fun s => tbool (is_siphon_indices G sns rn s)) subs;
+        tlist (fun s => tbool (is_trap_indices G sns rn s)) subs;
+        topt_sets s_all; topt_sets (find_traps G None);
+        topt_sets s_k; topt_sets (find_traps G (Some k));
+        tlist tnset (minimal_sets cands);
+        L [topt tbool (persistence_of s_all supports); topt tbool (persistence_of s_k supports)] ]
+  else L [I 0%Z].
 
 (** * PetriAnalyzer with its persistence field (analyzer.py): check_persistence() stores the verdict for the network as it is at that
     moment, compute_all() = compute_semiflows().compute_siphons_traps().check_persistence() (the first step raises on a network without
